@@ -115,6 +115,45 @@ pub fn run(ctx: &Ctx) -> Result<Ev, String> {
     let per = (if ctx.thorough { 1_500_000 } else { 120_000 } / shards) as u32;
     let seed = ctx.seed;
     let mut total = par::run_shards("C14", shards, |s| par::prop_shard("C14", seed, s, per, &pair(), |c, ev| test(c, ev, &devices)));
+    // limit leg: lines of every size around the tool's own limits (operator chains, parentheses, unary
+    // chains of 100..=140 — the tool refuses lines that nest too deep) with and without each kind of
+    // trailing comment, blanks and another letter case: on whichever side of a limit a line is, a
+    // rewrite that carries no meaning leaves it there
+    {
+        let mut bases: Vec<(String, String)> = vec![];
+        for n in (100usize..=140).chain([250, 256, 257].into_iter()) {
+            bases.push((format!("sum-of-{}", n + 1), format!(".dw 1{}", "+1".repeat(n))));
+            bases.push((format!("quotient-chain-{}", n), format!(".dw 64{}", "/1".repeat(n))));
+            bases.push((format!("parentheses-{}", n), format!("ldi r16, {}1{}", "(".repeat(n), ")".repeat(n))));
+            bases.push((format!("unary-chain-{}", n), format!(".db {}1, 2", "-".repeat(n))));
+            bases.push((format!("mixed-{}", n), format!(".dw low({}1{}){}", "(".repeat(n / 2), ")".repeat(n / 2), "*1".repeat(n / 2))));
+        }
+        for (tag, base) in bases {
+            for (rw, b) in [
+                ("semicolon-comment", format!("{} ; c", base)),
+                ("slashes-comment", format!("{} // c", base)),
+                ("slashes-comment-unspaced", format!("{}//c", base)),
+                ("block-comment", format!("{} /* c */", base)),
+                ("block-comment-with-operators", format!("{} /* a+b*c-d/e */", base)),
+                ("semicolon-comment-with-operators", format!("{} ; ----- ((( +++ ", base)),
+                ("trailing-blanks", format!("{}  \t ", base)),
+                ("indented", format!("  \t{}", base)),
+                ("upper-case", base.to_uppercase().replace(".DW", ".dw").replace(".DB", ".db")),
+                ("crlf", format!("{}\r\n", base)),
+                ("comment-line-above", format!("; (((((((((( ---------- \n{}", base)),
+            ] {
+                total.eval();
+                total.class(&format!("limit-leg:{}", rw));
+                total.nt(fp(&b));
+                let chk = Check::Same { a: base.clone(), b: b.clone(), messages: true, allow_both_fail: true };
+                if let Err(why) = chk.eval() {
+                    let k = if why.contains("anic") { "panic" } else if why.contains("differ in kind") { "validity-changed" } else { "output-changed" };
+                    total.violation(Violation { sig: format!("c14:limit-leg:{}:{}", rw, k), what: format!("[{}] {}", tag, crate::run::truncate(&why, 300)), replay: chk.to_json() });
+                    break;
+                }
+            }
+        }
+    }
     // radix leg: values at the edges of every width up to and beyond 64 bits, each written in every radix
     // the grammar has — whatever the decimal spelling gives (a value or a failure), the others give too
     {
